@@ -143,5 +143,8 @@ func (m *vfModel) handler(req vfPkt, raw []byte) []byte {
 		}
 		return st(rfOK, "")
 	}
+	if req.Type == rfExtended && req.Ext == "fsync@openssh.com" {
+		return st(rfOK, "")
+	}
 	return st(rfUnsupported, "unsupported")
 }
